@@ -18,12 +18,12 @@ SPEC = {
                    "decoder of the marker scheme. Known finding: N = 0 rejects v = 0 (exact case keys)."),
     "design_ref": "DESIGN.md section 5, C04",
     "budget_s": {"quick": 70, "thorough": 1500},
-    "needs": ["probe-rel"],
+    "needs": ["probe-rel", "cli-rel"],
     "rule": ("grid cells are (kind, N, v, spelling); typed kinds are assembled 400 per program next to an untyped fallback "
              "rule whose marker bit reveals rejection, #dN values are assembled in batches when the predicate accepts and "
              "alone when it rejects; non-trivial = cell within 4 of a range boundary (or the sized-literal width boundary "
              "for #d) or any rejected cell; distinct = distinct (kind, N, v, spelling)"),
-    "monitors": ["typed-accept-reject", "typed-bits", "typed-reject-alone", "typed-unused-parameter", "data-accept", "data-reject-alone", "wide-boundaries", "value-settles-after-a-larger-guess"],
+    "monitors": ["typed-accept-reject", "typed-bits", "typed-reject-alone", "typed-unused-parameter", "data-accept", "data-reject-alone", "wide-boundaries", "value-settles-after-a-larger-guess", "define-literal"],
     "min_nontrivial": {"quick": 3000, "thorough": 50000},
     "assumptions": ["the fallback rule `t {x} => 0b0 @ x`(N+9)` is only taken when the typed rule's constraint fails (smallest encoding wins)"],
 }
@@ -318,9 +318,45 @@ def run_guess_shrinks(ctx, worker, kind, n, v):
     ctx.nontrivial_case(repr((kind, n, v, "guess-shrinks")).encode())
 
 
+def run_define_literal(ctx, n, v, style):
+    """The value reaches `#dN` through a command-line define (`-dV=<literal>`, real binary): it means what the same
+    literal means in the source - a sign makes it an unsized number, an unsigned hex/binary literal keeps its digit width."""
+    import runner
+    mag = abs(v)
+    lit = str(mag) if style == "dec" else "0x%x" % mag if style == "hex" else "0b" + bin(mag)[2:]
+    size = None if (v < 0 or style == "dec") else (len(lit) - 2) * (4 if style == "hex" else 1)
+    text = ("-" if v < 0 else "") + lit
+    src = "V = 0\n#d%d V\n" % n
+    argv = ["main.asm", "-q", "-p", "-f", "binstr", "-dV=" + text]
+    res = runner.run_cli(ctx.cli("rel"), argv, {"main.asm": src}, cpu_s=10)
+    ctx.evaluated()
+    if res["signal"] is not None or res["wall_timeout"] or res["status"] not in (0, 1):
+        ctx.excluded += 1
+        return
+    ctx.monitor("define-literal")
+    want = data_accepts(n, v, size)
+    ok = res["status"] == 0
+    job = {"mode": "process", "argv": ["customasm"] + argv, "files": [["main.asm", src]]}
+    if ok != want:
+        sig = {"kind": "d", "N": n, "v": v, "what": "rejected-in-range"} if is_known_n0("d", n, v) and not ok else \
+            {"kind": "d", "what": "accepted-out-of-range" if ok else "rejected-in-range", "value_from_command_line_define": True, "negative": v < 0, "spelling": style}
+        ctx.violation("range-predicate", sig, job, {"accepted": want}, {"accepted": ok, "out": (res["stdout"] + res["stderr"])[-200:]},
+                      note="define N=%d v=%d" % (n, v))
+    elif ok and res["stdout"].strip() != format(v & ((1 << n) - 1), "0%db" % n):
+        ctx.violation("range-predicate", {"kind": "d", "what": "wrong-bits", "value_from_command_line_define": True}, job,
+                      {"bits": format(v & ((1 << n) - 1), "0%db" % n)}, {"bits": res["stdout"].strip()[:40]}, note="define N=%d v=%d" % (n, v))
+    else:
+        ctx.nontrivial_case(repr(("d", n, v, style, "define")).encode())
+
+
 def shard(ctx):
     worker = ctx.worker("rel")
     full_n = 16
+    dl = [(n, b + d, st) for n in range(1, 17) for b in sorted(set([0, 1 << n, -(1 << (n - 1)), 1 << (n - 1), -(1 << n)])) for d in (-1, 0, 1)
+          for st in ("dec", "hex", "bin")]
+    for k, (n, v, st) in enumerate(dl):
+        if k % ctx.nshards == ctx.shard and not ctx.out_of_time():
+            run_define_literal(ctx, n, v, st)
     # directed: values that pass through a larger guess before settling (all boundary cells, every kind)
     gs = [(kind, n, b + d) for n in range(0, 17) for kind in "usid"
           for b in sorted(set([0, 1 << n, -(1 << (n - 1)) if n else 0, (1 << (n - 1)) if n else 0, -(1 << n)])) for d in (-2, -1, 0, 1)]
